@@ -30,6 +30,8 @@ func gen(stream, tier string, seed uint64) {
 		genStore(tier, seed)
 	case "order":
 		genOrder(tier, seed)
+	case "autogen":
+		genAutogen(tier, seed)
 	case "roundtrip":
 		genRoundtrip(tier, seed)
 	case "remarshal":
